@@ -171,6 +171,32 @@ func Overlaps(a, b MetricTimeRange, step time.Duration) (c TimeRange, ok bool) {
 		return c, true
 	}
 
+	// 10. First range included in second range (start aligned)
+	//    [s1 e1]
+	//    [s2   e2]
+	if a.Start.Sub(b.Start).Abs() <= step && a.End.Before(b.End) {
+		if a.Start.Before(b.Start) {
+			c.Start = a.Start
+		} else {
+			c.Start = b.Start
+		}
+		c.End = b.End
+		return c, true
+	}
+
+	// 11. First range included in second range (end aligned)
+	//      [s1 e1]
+	//    [s2   e2]
+	if a.Start.After(b.Start) && a.End.Sub(b.End).Abs() <= step {
+		c.Start = b.Start
+		if a.End.After(b.End) {
+			c.End = a.End
+		} else {
+			c.End = b.End
+		}
+		return c, true
+	}
+
 	return c, false
 }
 
